@@ -239,3 +239,95 @@ pub fn modular_header_hostile(rng: &mut Rng) -> Vec<u8> {
     write_frame(&mut out, rng, &ih, &fh, sections, false, false);
     out
 }
+
+/// A small valid Modular image whose header asks for an embedded ICC profile; `profile` is written
+/// as a well-formed ICC stream (so the decoder sees exactly these profile bytes), whatever they are.
+pub fn icc_carrier_modular(rng: &mut Rng, profile: &[u8]) -> Option<Vec<u8>> {
+    use crate::icc::{write_icc, IccEntropyOpts, IccStyle, IccWriteOpts};
+    let claims_grey = profile.len() >= 20 && &profile[16..20] == b"GRAY";
+    let grey = if rng.chance(1, 8) { !claims_grey } else { claims_grey };
+    let (w, h) = (rng.u32range(1, 24), rng.u32range(1, 24));
+    let n_ec = rng.urange(0, 2);
+    let ec: Vec<ExtraChannelInfo> = (0..n_ec)
+        .map(|_| ExtraChannelInfo::new(if rng.bool() { EcType::Alpha { associated: false } } else { EcType::Black }, BitDepth::Int { bits: 8 }, 0, ""))
+        .collect();
+    let mut md = ImageMetadata::plain(BitDepth::Int { bits: 8 }, grey, ec);
+    md.colour_encoding = ColourEncoding { all_default: false, want_icc: true, colour_space: if grey { 1 } else { 0 }, ..Default::default() };
+    let ih = ImageHeader { size: SizeHeader::new(w, h), metadata: md };
+    let fh = FrameHeader::modular(&ih);
+    let infos = modular_channel_infos(&ih, &fh);
+    let layout = group_layout(&fh);
+    let mopts = ModularOpts {
+        bit_depth: 8,
+        range_lo: -4000,
+        range_hi: 4000,
+        sample_lo: 0,
+        sample_hi: 255,
+        allow_wp: true,
+        allow_lz77: true,
+        plain_entropy: false,
+        local_tree_pct: 0,
+        local_transform_pct: 0,
+        transforms: None,
+        max_transforms: 2,
+        force_tree: None,
+        palette_special: false,
+        force_gens: None,
+    };
+    let enc = encode_modular(rng, &infos, &layout, &mopts)?;
+    let style = if rng.chance(1, 6) { IccStyle::simplest() } else { IccStyle::random(rng, profile.len()) };
+    let writer = |bw: &mut BitWriter, rng: &mut Rng| {
+        let _ = write_icc(bw, profile, rng, &IccWriteOpts { style: style.clone(), entropy: IccEntropyOpts::default() });
+    };
+    let mut out = write_codestream_header(&ih, rng, false, Some(&writer));
+    let sections = modular_frame_sections(&fh, &enc, &plain_lf_global_prefix());
+    write_frame(&mut out, rng, &ih, &fh, sections, false, false);
+    Some(out)
+}
+
+/// A small valid Modular image with a preview frame in front of the first frame (image and preview
+/// both fit one group, where the frame layout of the preview is undisputed).
+pub fn preview_carrier_modular(rng: &mut Rng) -> Option<Vec<u8>> {
+    let grey = rng.bool();
+    let (w, h) = (rng.u32range(1, 40), rng.u32range(1, 40));
+    let (pw, ph) = (rng.u32range(1, 24), rng.u32range(1, 24));
+    let n_ec = rng.urange(0, 2);
+    let ec: Vec<ExtraChannelInfo> = (0..n_ec).map(|_| ExtraChannelInfo::new(EcType::Alpha { associated: rng.bool() }, BitDepth::Int { bits: 8 }, 0, "")).collect();
+    let mut md = ImageMetadata::plain(BitDepth::Int { bits: 8 }, grey, ec);
+    md.preview = Some(PreviewHeader::with_random_repr(pw, ph, rng));
+    md.all_default = false;
+    md.extra_fields = true;
+    let ih = ImageHeader { size: SizeHeader::new(w, h), metadata: md };
+    let mut pmd = ih.metadata.clone();
+    pmd.preview = None;
+    pmd.extra_fields = pmd.needs_extra_fields();
+    let pih = ImageHeader { size: SizeHeader::new(pw, ph), metadata: pmd };
+    let mopts = ModularOpts {
+        bit_depth: 8,
+        range_lo: -4000,
+        range_hi: 4000,
+        sample_lo: 0,
+        sample_hi: 255,
+        allow_wp: true,
+        allow_lz77: true,
+        plain_entropy: false,
+        local_tree_pct: 0,
+        local_transform_pct: 0,
+        transforms: None,
+        max_transforms: 2,
+        force_tree: None,
+        palette_special: false,
+        force_gens: None,
+    };
+    let mut out = write_codestream_header(&ih, rng, false, None);
+    for (i, hdr) in [&pih, &ih].into_iter().enumerate() {
+        let fh = FrameHeader::modular(hdr);
+        let infos = modular_channel_infos(hdr, &fh);
+        let layout = group_layout(&fh);
+        let enc = encode_modular(rng, &infos, &layout, &mopts)?;
+        let sections = modular_frame_sections(&fh, &enc, &plain_lf_global_prefix());
+        let _ = i;
+        write_frame(&mut out, rng, hdr, &fh, sections, false, false);
+    }
+    Some(out)
+}
